@@ -97,7 +97,8 @@ def process(entry, mutate):
         return process_trap(mutate)
     sc = Scenario(entry)
     import puresnmp_plugins.security.usm as usm
-    saved_auth = usm.auth.create
+    from engine.core import seam
+    saved_auth = seam(seam(usm, "auth"), "create")
     if sc.ideal:
         class Mac:
             @staticmethod
@@ -184,7 +185,8 @@ def process_trap(mutate):
 
     loop = asyncio.new_event_loop()
     loop.set_exception_handler(lambda lp, ctx: None)
-    saved = raw.listen
+    from engine.core import seam
+    saved = seam(raw, "listen")
     raw.listen = fake_listen
     try:
         asyncio.set_event_loop(loop)
